@@ -19,7 +19,7 @@ import (
 // ---- loads (C11/C12) -------------------------------------------------------------------------------
 
 func (s *kvSubj[K]) identityClasses() bool {
-	id := map[string]bool{"nat": true, "rev": true, "natbig": true, "diff": true}
+	id := map[string]bool{"nat": true, "rev": true, "natbig": true, "diff": true, "ext": true, "total": true}
 	idK := !kvHasCmp(s.cfg.Kind) || id[s.d.CmpName]
 	idV := s.cfg.Kind != "treebidimap" || id[s.vd.CmpName]
 	return idK && idV
